@@ -5,6 +5,7 @@ package modules
 import (
 	"context"
 	"errors"
+	"time"
 
 	rt "github.com/safing/portbase/zz_verifrt"
 )
@@ -470,4 +471,72 @@ func VerifC01_ShutdownQueuedBeforeManagementPass() {
 	}
 	checkOrder(deps, "queuedorder")
 	rt.Reach("queued-end")
+}
+
+// ---- stop order under one preemption at any synchronisation operation (G2):
+// a module with a dependency owns a worker that ends as soon as the context
+// is cancelled - the dependency's stop routine still begins only after the
+// dependent's stop routine has returned ----
+
+func VerifC01_StopOrderWithPromptWorker() {
+	resetModuleSystem()
+	rt.NoTimers()
+	rt.SchedYieldOnly(true)
+	rt.Preemptions(1)
+	SetStdErrReporting(false)
+	moduleStopTimeout = time.Hour // (a lost completion must hang, not time out)
+	var order []string
+	user := initNewModule("user", nil, nil, func() error {
+		order = append(order, "user-stop-begin")
+		for i := 0; i < 3; i++ {
+			rt.Yield() // (the stop routine takes a while: anything may run meanwhile)
+		}
+		rt.NativePause()
+		order = append(order, "user-stop-end")
+		return nil
+	})
+	dep := initNewModule("dep", nil, nil, func() error {
+		order = append(order, "dep-stop-begin")
+		return nil
+	})
+	user.depModules = []*Module{dep}
+	dep.depReverse = []*Module{user}
+	modules = map[string]*Module{"user": user, "dep": dep}
+	for _, m := range []*Module{user, dep} {
+		m.status = StatusOnline
+		close(m.startComplete)
+	}
+	// natively the window between cancelling the context and starting the
+	// stop routine is widened instead of being scheduled
+	cancel := user.cancelCtx
+	user.cancelCtx = func() {
+		cancel()
+		rt.NativePause()
+	}
+	began := false
+	kind := rt.Choice("kind", 3)
+	body := func(ctx context.Context) error {
+		began = true
+		<-ctx.Done()
+		return nil
+	}
+	switch kind {
+	case 0:
+		user.StartWorker("w", body)
+	case 1:
+		user.StartServiceWorker("sw", 0, body)
+	case 2:
+		user.StartHighPriorityMicroTask("mt", body)
+	}
+	rt.Yield()
+	if !began {
+		return
+	}
+	rt.Assert(stopModules() == nil, "promptworker/stop-ok")
+	rt.Assert(len(order) == 3, "promptworker/both-stop-routines-ran")
+	if len(order) == 3 {
+		rt.Assert(order[0] == "user-stop-begin" && order[1] == "user-stop-end" && order[2] == "dep-stop-begin", "promptworker/dependency-stops-after-the-dependent-has-stopped")
+	}
+	rt.Assert(user.Status() == StatusOffline && dep.Status() == StatusOffline, "promptworker/offline")
+	rt.Reach("promptworker-end")
 }
